@@ -48,10 +48,33 @@ def run(ctx, rep):
     scope = fat + [f for f in facts.fns.values() if '::controls::' in f.name and '_a5_' in f.name]
 
     # ---------------- A5.1
+    def count_unknown_edges(fn_):
+        """edges taken when the cached free count is `None` (a switch on the discriminant of an Option that derives from the
+        `free_cluster_count` field): there is nothing to update on them - what `map_free_clusters` does inside"""
+        out = set()
+        d_ = None
+        for bi_ in fn_.reachable():
+            tt_ = fn_.blocks[bi_]['term']
+            if tt_['k'] != 'switch':
+                continue
+            src_ = switch_source(fn_, bi_)
+            if not src_ or src_.get('kind') != 'discr':
+                continue
+            if d_ is None:
+                d_ = Deps(fn_)
+            from analyses import place_prefix_type
+            pty_ = place_prefix_type(fn_, src_['place'], len(src_['place']['p']))
+            if not pty_ or pty_.get('path') != 'core::option::Option':
+                continue
+            if ('field', 'free_cluster_count') in d_.of_place(src_['place']):
+                out |= {(bi_, x) for v, x in tt_['targets'] if v == 0}
+        return out
+
     n1 = 0
     # helpers: fatfs functions all of whose returning paths cross a counter update (e.g. a private
     # `add_free_clusters(n)`); a call to one counts as the update, with the delta traced through its parameter
     m0 = Must(facts, lambda f, b, t, names: bool(names & set(COUNTER_UPDATES)))
+    m0.extra_cut = count_unknown_edges
     helpers = m0.compute([f for f in fat if f.name not in COUNTER_UPDATES and f.file() != 'src/table.rs'])
     helper_params = {}
     for hn in helpers:
@@ -77,6 +100,7 @@ def run(ctx, rep):
         deps = Deps(fn)
         m = Must(facts, lambda f, b, t, names: bool(names & set(COUNTER_UPDATES)) or
                  (t.get('callee') or '').endswith('ctl_counter_update'))
+        m.extra_cut = count_unknown_edges
         cut = m.crossing_edges(fn, helpers - {fn.name})
         lab = m._labels(fn)
         for b, t in sites:
